@@ -228,11 +228,44 @@ Theorem C10_location_fixed : forall st w e, 0 <= w <= 2 -> model_location_fixed 
 Proof. exact location_fixed_spec. Qed.
 Print Assumptions C10_location_fixed.
 
+(* T7  programs: Genome.get_intervals(.., stranded) followed by any sequence of interval-producing operations (sorted,
+   merged(d), clip, extended_to_size(n), [::-1], [mask], get_location(w).get_windows(..)).
+   Every operation hands the strandedness of the table on — extended_to_size when it passes the flag
+   (extend_keeps_strand; at HEAD it does not: notes/C10.fix-6.diff) ... *)
+Theorem C10_strandedness_preserved : forall szs ps fl rows fl' rows',
+  (extend_keeps_strand = true \/ fl = false \/ no_extend ps) ->
+  model_steps szs (fl, rows) ps = inr (fl', rows') -> fl' = fl.
+Proof. exact strandedness_preserved. Qed.
+Print Assumptions C10_strandedness_preserved.
+Theorem C10_strandedness_lost_refuted : exists szs rows n fl' rows',
+  model_step_gen false szs (true, rows) (PExtend n) = inr (fl', rows') /\ fl' = false.
+Proof. exact strandedness_lost_refuted. Qed.
+Print Assumptions C10_strandedness_lost_refuted.
+(* ... and therefore a program followed by a strand-aware consumer (array values, sequence, get_location) is the
+   composition of the per-chromosome single-contig operations on a table that is as stranded as it was created: rows on
+   '-' are reversed / reverse-complemented / located at their right end after any number of steps. *)
+Theorem C10_prog_spec : forall szs vals st es ps k r, nonneg szs ->
+  (extend_keeps_strand = true \/ st = false \/ no_extend ps) ->
+  (k = CExtract -> szs = map len vals) ->
+  (k = CSeq -> forall rows, spec_steps szs st es ps = Some rows ->
+     st = false \/ len rows < len (concat (map (fun e => slice (e_start e) (e_stop e) (nthd [] vals (e_chr e))) rows))) ->
+  spec_prog szs vals st es ps k = Some r -> model_prog szs vals st es ps k = r.
+Proof. exact prog_spec. Qed.
+Print Assumptions C10_prog_spec.
+(* non-vacuity: sorted() then merged(1) then array values, two chromosomes, a '-' row first in the merged run of chr 1 *)
+Example C10_prog_nonvacuous :
+  let szs := [3; 4] in let vals := [[10; 11; 12]; [20; 21; 22; 23]] in
+  let es := [ {| e_chr := 1; e_start := 2; e_stop := 4; e_fwd := true |};
+              {| e_chr := 1; e_start := 0; e_stop := 2; e_fwd := false |}; mk 0 1 3 ] in
+  spec_prog szs vals true es [PSorted; PMerged 1] CExtract = Some (RRows [[11; 12]; [23; 22; 21; 20]])
+  /\ model_prog szs vals true es [PSorted; PMerged 1] CExtract = RRows [[11; 12]; [23; 22; 21; 20]].
+Proof. vm_compute. split; reflexivity. Qed.
+
 (* Link: for every well-formed case of every operation of the correspondence (Corr/C10.v) — sizes >= 0, start <= stop,
    Geometry only on included chromosomes, and per operation: merged on a (chromosome,start)-sorted table with d >= 0;
    GenomicIntervalsFull.clip on intervals reaching their chromosome's range; get_location where in {start,stop,center};
    windows around locations on their chromosome; array values as long as the chromosomes; sequence extraction on good
-   tables outside the all-length-1 stranded class — the implementation agreeing with the model implies that the
+   tables outside the all-length-1 stranded class; programs without a flag-dropping extended_to_size — the implementation agreeing with the model implies that the
    property holds on that case.  Tables that reach outside a chromosome are covered: the model refuses them. *)
 Theorem C10_model_ok_spec_ok : forall c, case_wf c -> model_ok c = true -> spec_ok c = true.
 Proof. exact model_ok_spec_ok. Qed.
